@@ -321,7 +321,20 @@ func scenario(p params) e1lib.Scenario {
 			rt.SelRecvCase(s, callDone)
 			rt.SelRecvCase(s, vtime.After(100*time.Second))
 			if s.Choose() == 1 {
-				rt.Log("hang")
+				// last resort of an application: Stop() on the client object itself
+				rt.Log("call still blocked 100s after the connection was shut down")
+				rt.Go("stopper", func() {
+					client.Stop()
+					rt.Log("client.Stop returned")
+				})
+				s := rt.NewSel("main:wait3", false)
+				rt.SelRecvCase(s, callDone)
+				rt.SelRecvCase(s, vtime.After(100*time.Second))
+				if s.Choose() == 1 {
+					rt.Log("hang")
+					return
+				}
+				rt.Log("call returned only after client.Stop")
 				return
 			}
 			rt.Log("call returned only after the connection was shut down")
@@ -381,12 +394,17 @@ func oracle(p params, r *rt.Result) []rt.Finding {
 			return fail("wrong-request-on-the-wire", l)
 		}
 	}
+	for _, l := range r.Logs {
+		if strings.HasPrefix(l, "call returned only after") {
+			return fail("hang-until-"+strings.ReplaceAll(strings.TrimPrefix(l, "call returned only after "), " ", "-"), "the call stayed blocked for 300 s although every timeout involved is at most 120 s and the peer was silent; "+l)
+		}
+	}
 	if hang {
 		who := "the call"
 		if ret != "" {
 			who = "the follow-up call"
 		}
-		return fail("hang", who+" never returned (blocked 300 s, then 100 s more after the connection was shut down): "+strings.Join(r.Verdict.Stuck, "; "))
+		return fail("hang", who+" never returned (blocked 300 s, 100 s more after the connection was shut down, 100 s more after client.Stop() was called): "+strings.Join(r.Verdict.Stuck, "; "))
 	}
 	if r.Verdict.Kind == "panic" {
 		return fail("panic:"+strings.SplitN(r.Verdict.Detail, "\n", 2)[0], r.Verdict.Detail)
